@@ -368,10 +368,178 @@ def run_opt(case, res):
     res["nontrivial"] += 1
 
 
+def _ccw(poly):
+    a = sum(poly[i][0] * poly[(i + 1) % len(poly)][1] - poly[(i + 1) % len(poly)][0] * poly[i][1] for i in range(len(poly)))
+    return [list(p) for p in (poly if a > 0 else poly[::-1])]
+
+
+def zone_shape(kind, rho, s):
+    if kind == "quad":
+        return [(-rho, -0.8 * rho), (rho, -rho), (1.1 * rho, 0.9 * rho), (-0.9 * rho, rho)]
+    if kind == "tri":
+        return [(-rho, -rho), (rho, -0.6 * rho), (0.0, rho)]
+    if kind == "thin":  # narrower than a spacing along the rows, long across them
+        return [(-0.2 * s, -1.6 * rho), (0.2 * s, -1.6 * rho), (0.2 * s, 1.6 * rho), (-0.2 * s, 1.6 * rho)]
+    if kind == "oct":
+        return [(rho * math.cos(math.pi / 8 + k * math.pi / 4), rho * math.sin(math.pi / 8 + k * math.pi / 4)) for k in range(8)]
+    raise core.HarnessError(kind)
+
+
+def last_bit_edge(zones):
+    """some zone edge is vertical / horizontal but for a round-off-sized difference (coordinates computed, not typed)"""
+    for z in zones:
+        for i in range(len(z)):
+            a, b = z[i], z[(i + 1) % len(z)]
+            dx, dy = abs(b[0] - a[0]), abs(b[1] - a[1])
+            if 0 < dx < 1e-9 * dy or 0 < dy < 1e-9 * dx:
+                return True
+    return False
+
+
+def place_zones(lot, spec, u_deg, s, unrounded=False):
+    """spec: list of (shape kind, position along the arrangement axis in spacings, position across it in spacings, 'ccw'|'cw');
+    the arrangement axis goes through the lot's centroid at angle u_deg"""
+    cx = sum(p[0] for p in lot) / len(lot)
+    cy = sum(p[1] for p in lot) / len(lot)
+    u = math.radians(u_deg)
+    cu, su = math.cos(u), math.sin(u)
+    rho = 0.9 * s
+    out = []
+    for kind, along, across, orient in spec:
+        zx, zy = cx + s * (along * cu - across * su), cy + s * (along * su + across * cu)
+        # coordinates as an input file would carry them (4 decimals): no edge that is vertical but for the last bit
+        z = [[zx + x * cu - y * su, zy + x * su + y * cu] for x, y in zone_shape(kind, rho, s)]
+        if not unrounded:
+            z = [[round(x, 4), round(y, 4)] for x, y in z]
+        out.append(z if orient == "ccw" else z[::-1])
+    return out
+
+
+ZONE_SPECS = {
+    "one_ccw": [("quad", 0.0, 0.0, "ccw")],
+    "one_cw": [("quad", 0.0, 0.0, "cw")],
+    "tri_cw": [("tri", 0.3, 0.2, "cw")],
+    "two_left_right": [("quad", -1.7, 0.0, "ccw"), ("quad", 1.7, 0.1, "ccw")],
+    "two_right_left": [("quad", 1.7, 0.1, "ccw"), ("quad", -1.7, 0.0, "ccw")],
+    "two_mixed_orient": [("quad", 1.7, 0.1, "cw"), ("oct", -1.7, 0.0, "ccw")],
+    "two_stacked": [("quad", 0.0, -1.6, "ccw"), ("tri", 0.2, 1.6, "ccw")],
+    "three": [("tri", 2.9, 0.2, "ccw"), ("quad", -2.6, 0.0, "ccw"), ("oct", 0.2, -0.1, "ccw")],
+    "three_rev": [("oct", 0.2, -0.1, "cw"), ("quad", -2.6, 0.0, "ccw"), ("tri", 2.9, 0.2, "ccw")],
+    "thin_pair": [("thin", -0.3, 0.0, "ccw"), ("thin", 0.3, 0.0, "ccw")],
+    "thin_pair_rev": [("thin", 0.3, 0.0, "ccw"), ("thin", -0.3, 0.0, "ccw")],
+    "thin_then_wide": [("thin", -0.9, 0.0, "ccw"), ("quad", 0.7, 0.0, "ccw")],
+}
+NOGO_LOTS = {
+    "rect_off": [[5.0, 5.0], [125.0, 5.0], [125.0, 95.0], [5.0, 95.0]],
+    "rect_axes": [[0.0, 0.0], [120.0, 0.0], [120.0, 90.0], [0.0, 90.0]],
+    "hexagon": [[10.0, 0.0], [100.0, 5.0], [130.0, 50.0], [105.0, 100.0], [25.0, 105.0], [0.0, 55.0]],
+}
+
+
+def gen_multi(lot, spacing, rot_deg, zones, perimeter):
+    field, ng = _rw.gen_shape(lot, zones)
+    if perimeter:
+        return _rw.two_space_gen_bhc(field, spacing, spacing, no_go=ng, rotate=rot_deg * math.pi / 180.0)
+    return _rw.gen_borehole_config(field, spacing, spacing, no_go=ng, rotate=rot_deg * math.pi / 180.0)
+
+
+def run_nogo(case, res):
+    """several convex no-go zones strictly inside one lot, in every listing order / orientation of the menu, rows at several rotations
+    (an arrangement axis along the rows makes one row cross all zones)"""
+    lot = NOGO_LOTS[case["lot"]]
+    s = case["spacing"]
+    for u in case["axes"]:
+        zones = place_zones(lot, ZONE_SPECS[case["zones"]], u, s, unrounded=bool(case.get("unrounded")))
+        lbe = last_bit_edge(zones)
+        if not all(strictly_inside_convex(lot, z, margin=1.0).all() for z in zones):
+            res.bump("zones_not_strictly_inside_skipped")
+            continue
+        for rot in case["rots"]:
+            for perimeter in (False, True):
+                res["evals"] += 1
+                c1 = dict(case, axes=[u], rots=[rot], perimeter=perimeter)
+                out, err = with_horizon(gen_multi, lot, s, rot, zones, perimeter, _budget=2 * HORIZON_S)
+                along = abs(((u - rot + 90.0) % 180.0) - 90.0) < 1e-9
+                if err == "timeout":
+                    res["violations"].append(core.viol("does_not_terminate", c1, msg=f"no-go zones {case['zones']} (axis {u} deg) in lot {case['lot']}, spacing {s}, rotation {rot}: generation did not "
+                                                       f"finish within {2 * HORIZON_S} s of CPU time", nogo=case["zones"], rows_along_zone_axis=along, last_bit_edge=lbe))
+                    res.outcome("timeout")
+                    continue
+                if err is not None:
+                    res["violations"].append(core.viol("generator_raised", c1, msg=f"no-go zones {case['zones']} (axis {u} deg) in lot {case['lot']}, spacing {s}, rotation {rot}: {type(err).__name__}: {err}",
+                                                       exc=type(err).__name__, nogo=case["zones"], last_bit_edge=lbe))
+                    res.outcome("raised")
+                    continue
+                pts = np.asarray(out, dtype=float).reshape(-1, 2)
+                ok = inside_convex(lot, pts)
+                if len(pts) == 0:
+                    res["violations"].append(core.viol("empty_field", c1, msg=f"no-go zones {case['zones']}: no borehole generated", nogo=case["zones"], last_bit_edge=lbe))
+                elif not ok.all():
+                    q = pts[~ok][0]
+                    res["violations"].append(core.viol("borehole_outside_lot", dict(c1, point=[float(q[0]), float(q[1])]), msg=f"no-go {case['zones']}: borehole ({q[0]:.4f}, {q[1]:.4f}) outside the lot", what="nogo"))
+                for zi, z in enumerate(zones):
+                    bad = strictly_inside_convex(_ccw(z), pts, margin=1e-6)
+                    if bad.any():
+                        q = pts[bad][0]
+                        res["violations"].append(core.viol("borehole_inside_no_go", dict(c1, point=[float(q[0]), float(q[1])]),
+                                                           msg=f"zones {case['zones']} (axis {u} deg), lot {case['lot']}, spacing {s}, rotation {rot}, perimeter={perimeter}: borehole "
+                                                               f"({q[0]:.4f}, {q[1]:.4f}) lies strictly inside no-go zone #{zi} {z} ({int(bad.sum())} such boreholes)",
+                                                           what="nogo-family", nogo=case["zones"], perimeter=perimeter, last_bit_edge=lbe))
+                        break
+                res.outcome("nogo_generated")
+                res["nontrivial"] += 1
+    res["sample"] = dict(case)
+
+
+def run_far(case, res):
+    """the same lot far from the origin (site coordinates in a national grid): generation ends, stays inside, and is the rigid
+    translate of the field generated near the origin"""
+    lot0 = lot_coords(case)
+    s, rot = case["spacing"], case["rot"]
+    tx, ty = case["shift"]
+    lot1 = [[x + tx, y + ty] for x, y in lot0]
+    res["evals"] += 1
+    f1, e1 = with_horizon(gen_once, lot1, s, rot, _budget=2 * HORIZON_S)
+    if e1 is not None:
+        kind = "does_not_terminate" if e1 == "timeout" else "generator_raised"
+        res["violations"].append(core.viol(kind, case, msg=f"lot {lot0} shifted by {case['shift']}, spacing {s}, rotation {rot}: {e1 if e1 == 'timeout' else type(e1).__name__ + ': ' + str(e1)}",
+                                           rotation=rot, far=True, **({"exc": type(e1).__name__} if e1 != "timeout" else {})))
+        res.outcome("timeout" if e1 == "timeout" else "raised")
+        return
+    mag = max(abs(tx), abs(ty), 1.0)
+    slack = max(1e-6, 1e-9 * mag)
+    p1 = np.asarray(f1, dtype=float).reshape(-1, 2)
+    ok = inside_convex(lot1, p1, slack=slack)
+    if len(p1) == 0 or not ok.all():
+        res["violations"].append(core.viol("borehole_outside_lot", case, msg=f"lot shifted by {case['shift']}: {int((~ok).sum())} of {len(p1)} boreholes outside", what="far"))
+    d = nn_min(p1)
+    if d < s * (1 - 1e-6):
+        res["violations"].append(core.viol("spacing_below_target", case, observed=d, expected=s, msg=f"lot shifted by {case['shift']}: nearest-neighbour distance {d:.6f} below {s}",
+                                           rows_vertical=abs(abs(rot) - 90.0) < 1e-4, rows_along_an_edge=rows_along_an_edge(lot0, rot), row_through_vertex=row_through_vertex(lot0, s, rot), far=True))
+    if case.get("compare"):
+        f0, e0 = with_horizon(gen_once, lot0, s, rot)
+        if e0 is None:
+            p0 = np.asarray(f0, dtype=float).reshape(-1, 2) + np.array([tx, ty])
+            same = len(p0) == len(p1)
+            if same and len(p0):
+                dd, idx = cKDTree(p1).query(p0, k=1)
+                same = bool(np.all(dd < 1e-4 + 1e-9 * mag)) and len(set(idx.tolist())) == len(p0)
+            if not same:
+                res["violations"].append(core.viol("translation_changes_field", case, observed=[len(p0), len(p1)], msg=f"lot {lot0} at rotation {rot}: {len(p0)} boreholes near the origin, "
+                                                   f"{len(p1)} / different positions when shifted by {case['shift']}", row_through_vertex=row_through_vertex(lot0, s, rot), far=True))
+    res.outcome("far_generated")
+    res["nontrivial"] += 1
+    res["sample"] = dict(case)
+
+
 def run_case(case):
     res = core.Result(evals=0)
     k = case.get("kind")
-    if k == "single":
+    if k == "nogo":
+        run_nogo(case, res)
+    elif k == "far":
+        run_far(case, res)
+    elif k == "single":
         run_single(case, res)
     elif k == "rect":
         run_rect(case, res)
@@ -460,6 +628,19 @@ def main(run: core.Run, only=None):
                     opts.append({"kind": "opt", "poly": [list(p) for p in poly], "scale": scale, "offset": 7.5, "spacing": 10.0 if scale == 20.0 else 12.0,
                                  "window": [-90.0, 90.0, 30.0], "ratio": ratio, "nogo": ng})
     run.drive(opts, family="optimisers")
+    nogos = [{"kind": "nogo", "lot": lot, "zones": z, "spacing": sp, "axes": [0.0, 30.0, 90.0], "rots": [-90.0, -45.0, 0.0, 30.0, 75.0] if quick else ROTS}
+             for lot in NOGO_LOTS for z in ZONE_SPECS for sp in ((7.3,) if quick else (5.3, 7.3, 10.0, 11.9))]
+    nogos += [{"kind": "nogo", "lot": lot, "zones": z, "spacing": 7.3, "axes": [0.0, 30.0], "rots": [-45.0, 0.0, 30.0, 75.0], "unrounded": True}
+              for lot in ("rect_off", "rect_axes") for z in ("two_mixed_orient", "three", "three_rev", "one_ccw")]
+    run.drive(nogos, family="no-go-zones")
+    fars = []
+    for pi in idx[:: (60 if quick else 12)]:
+        for shift in ([1000.0, 2000.0], [25000.0, 8000.0], [500000.0, 4100000.0]):
+            for rot in (0.0, 30.0, -90.0) if quick else ROTS:
+                poly = polys[pi]
+                if min_width(poly) * 20.0 >= 14.6:
+                    fars.append({"kind": "far", "poly": [list(p) for p in poly], "scale": 20.0, "offset": 7.5, "spacing": 7.3, "rot": rot, "shift": shift, "compare": True})
+    run.drive(fars, family="far-from-origin")
     return run.finish(
         rule="strictly convex lattice lots (every stride-th of 2719) x scale x offset x spacing x single rotations; axis-aligned rectangles; "
              "optimisers over rotation windows with / without perimeter ratio and no-go zone; one evaluation = one generator or optimiser "
@@ -469,5 +650,5 @@ def main(run: core.Run, only=None):
         assumptions=["outlines are given counter-clockwise (the input format asks for it)", "lots narrower than two spacings are skipped and counted",
                      "rotations within 1e-9 degree of the end of a window may or may not be tried (float accumulation in the sweep)",
                      "spacing is asserted only without perimeter spacing and without no-go zones, as the property states"],
-        require_outcomes=("generated", "rectangle", "optimised"),
+        require_outcomes=("generated", "rectangle", "optimised", "nogo_generated", "far_generated"),
     )
